@@ -1,5 +1,7 @@
 (* Basic facts about the association lists, the state setters and close_all of Model/Conductor.v. *)
-Require Import V.Base.MachineInt V.Generated.GenConsts V.Model.Conductor.
+Require Import V.Base.MachineInt.
+Require Import V.Generated.GenConsts.
+Require Import V.Model.Conductor.
 From Coq Require Import ZifyBool.
 Open Scope Z_scope.
 
